@@ -140,7 +140,7 @@ def run_orient(sc, workdir):
     rng.shuffle(jnames)
     for nm in jnames[:njit]:
         pars[nm + "_pd"] = rng.choice([5.0, 15.0, 30.0, 50.0, 70.0])      # wide meshes reach beyond 90 degrees
-        pars[nm + "_pd_n"] = rng.choice([2, 3, 4])
+        pars[nm + "_pd_n"] = rng.choice([1, 2, 3, 4])        # one point: the jitter is zero, not the view angle
         pars[nm + "_pd_type"] = rng.choice(["gaussian", "rectangle", "uniform"])
         pars[nm + "_pd_nsigma"] = rng.choice([2.0, 3.0])
     qx, qy = np.array(QX), np.array(QY)
@@ -163,6 +163,7 @@ def run_orient(sc, workdir):
             v, d, w = byname[nm]
             return {"v": fvec(d), "w": fvec(w)}, list(d), list(w)
         return {"v": ["0.0"], "w": ["1.0"]}, [0.0], [1.0]
+    ev["jreq"] = {nm: {"n": int(pars.get(nm + "_pd_n", 0)), "width": fstr(pars.get(nm + "_pd", 0.0))} for nm in ("theta", "phi", "psi")}
     ev["jt"], dt, _ = jit("theta")
     ev["jp"], dp, _ = jit("phi")
     ev["js"], ds, _ = jit("psi")
